@@ -16,9 +16,10 @@ const (
 	clsConstruct                 // builds a value of a victim-declared type outside the victim: must fail
 	clsPersist                   // keeps a realm value in persisted state: must fail
 	clsObserve                   // outcome recorded only (the specification is silent or explicitly permissive)
+	clsResidue                   // a refused write recovered by the program, then the touched container is kept / dirtied legitimately: no value-level residue
 )
 
-var c07ClassNames = []string{"forbidden-write", "copy-write", "read", "construct", "persist-realm", "observe"}
+var c07ClassNames = []string{"forbidden-write", "copy-write", "read", "construct", "persist-realm", "observe", "recovered-write-then-dirty"}
 
 type c07Prog struct {
 	id        string
@@ -33,10 +34,14 @@ type c07Prog struct {
 	needState bool   // uses the attacker realm's package variables
 	mayAlloc  bool   // may, by design, allocate records under the victim's package id
 	sig       string // violation signature of a construct / persist program (root cause class)
+	noWrap    bool   // the program brings its own recover(): no outer wrapper
+	keepsRef  bool   // keeps a reference to a victim object in the attacker's state (refcount/escape metadata of the victim's records legitimately move)
+	bump      int    // 1+k: the program itself cross-calls citadel.Bump(k) after the recovered write
+	follow    string // a later message of the same tx: "keep:<j>" (attacker realm's Keep<j>) or "bump:<k>" (citadel.Bump(k))
 }
 
-var c07Cats = []string{"scalar", "container", "read", "construct", "persist", "copy", "observe", "static"}
-var c07CatWeights = []int{10, 9, 2, 3, 3, 2, 1, 1}
+var c07Cats = []string{"scalar", "container", "read", "construct", "persist", "copy", "observe", "static", "residue"}
+var c07CatWeights = []int{10, 9, 2, 3, 3, 2, 1, 1, 6}
 
 var c07Wraps = []string{"direct", "closure", "defer", "captured", "captured-defer", "recover", "nested-defer"}
 var c07WrapWeights = []int{6, 2, 2, 2, 1, 1, 1}
@@ -555,6 +560,7 @@ func c07Programs() []c07Prog {
 		p.cat, p.class, p.path = "observe", clsObserve, "construct"
 		add(p)
 	}
+	out = append(out, c07Residues()...)
 	for _, p := range c07Persists {
 		p.cat, p.class, p.path, p.op, p.needCur, p.needState = "persist", clsPersist, "persist-realm", "persist-realm", true, true
 		if p.sig == "" {
@@ -622,7 +628,124 @@ var (
 	stashRS    rholder
 	calls      int
 )
+
+// slots in which the realm keeps REFERENCES to victim objects
+type keeper struct {
+	F any
+}
+
+var (
+	heldAny any
+	heldSt  keeper
+	heldSl  = make([]any, 1)
+	heldMap = map[string]any{}
+)
 `
+
+// c07Keeps are the attacker realm's crossing functions that keep a reference to a victim container
+// (called as a LATER message of the tx whose earlier message had a write refused).
+var c07Keeps = []string{
+	"heldAny = citadel.M",
+	"heldSt.F = citadel.GetMap()",
+	"heldSl = append(heldSl, citadel.MI)",
+	"heldMap[\"s\"] = citadel.S.M",
+	"heldSl[0] = citadel.D",
+	"heldAny = citadel.GetSlice()",
+	"heldSt.F = citadel.GetPtr()",
+	"heldMap[\"p\"] = citadel.S.P",
+	"heldAny = citadel.S.Sl",
+}
+
+type c07Residue struct {
+	name, kind, x string
+	shape         string // "smap", "imap", "slice", "ptr"
+	keep, grp     int    // matching Keep<j>, citadel group that Bump(grp) rewrites
+}
+
+var c07ResidueTargets = []c07Residue{
+	{"M", "map", "citadel.M", "smap", 0, 0},
+	{"GetMap()", "getter-map", "citadel.GetMap()", "smap", 1, 0},
+	{"S.M", "map", "citadel.S.M", "smap", 3, 1},
+	{"GetStruct().M", "getter-copy", "citadel.GetStruct().M", "smap", 3, 1},
+	{"D", "declared-type", "citadel.D", "smap", 4, 0},
+	{"MI", "map", "citadel.MI", "imap", 2, 0},
+	{"GetIntMap()", "getter-map", "citadel.GetIntMap()", "imap", 2, 0},
+	{"GetSlice()", "getter-slice", "citadel.GetSlice()", "slice", 5, 0},
+	{"S.Sl", "selector", "citadel.S.Sl", "slice", 8, 1},
+	{"GetPtr()", "getter-ptr", "citadel.GetPtr()", "ptr", 6, 2},
+	{"S.P", "selector", "citadel.S.P", "ptr", 7, 2},
+}
+
+var c07ResidueWrites = map[string][]struct{ name, op, stmt string }{
+	"smap": {
+		{"new-key", "map-insert", `X["fresh"] = V`},
+		{"existing-key", "assign", `X["a"] = V`},
+		{"add-assign-missing-key", "compound", `X["fresh"] += V`},
+		{"inc-missing-key", "incdec", `X["fresh"]++`},
+		{"dec-missing-key", "incdec", `X["gone"]--`},
+		{"or-assign-missing-key", "compound", `X["fresh"] |= 1`},
+		{"delete-present-key", "map-delete", `delete(X, "a")`},
+		{"two-new-keys", "multi-assign", `X["n1"], X["n2"] = V, V`},
+		{"swap-with-missing-key", "swap", `X["a"], X["fresh"] = X["fresh"], X["a"]`},
+		{"poke.MapInsert", "p-func", `poke.MapInsert(X)`},
+		{"inc-existing-key", "incdec", `X["b"]++`},
+	},
+	"imap": {
+		{"new-int-key", "map-insert", `X[77] = V`},
+		{"existing-int-key", "assign", `X[1] = V`},
+		{"add-assign-missing-int-key", "compound", `X[77] += V`},
+		{"inc-missing-int-key", "incdec", `X[78]++`},
+		{"or-assign-missing-int-key", "compound", `X[-3] |= 1`},
+		{"delete-present-int-key", "map-delete", `delete(X, 1)`},
+		{"two-new-int-keys", "multi-assign", `X[5], X[6] = V, V`},
+	},
+	"slice": {
+		{"elem", "assign", `X[0] = V`},
+		{"elem-inc", "incdec", `X[1]++`},
+		{"append-within", "append", `_ = append(X[:1], V)`},
+		{"copy", "copy", `copy(X, []int{V})`},
+	},
+	"ptr": {
+		{"field", "assign", `X.A = V`},
+		{"field-inc", "incdec", `X.A++`},
+		{"field-string", "compound", `X.B += "r"`},
+	},
+}
+
+var c07KeepForms = []string{"heldAny = X", "heldSt.F = X", "heldSl = append(heldSl, X)", "heldMap[\"k\"] = X", "heldSl[0] = X"}
+
+func c07Residues() []c07Prog {
+	var out []c07Prog
+	n := 0
+	for _, t := range c07ResidueTargets {
+		for _, wr := range c07ResidueWrites[t.shape] {
+			write := "func() {\n\t\tdefer func() {\n\t\t\trecover()\n\t\t}()\n\t\t" + strings.ReplaceAll(wr.stmt, "X", t.x) + "\n\t}()"
+			base := c07Prog{cat: "residue", class: clsResidue, path: t.kind, op: wr.op, noWrap: true}
+			id := wr.name + "(" + t.name + ") recovered"
+			// same message: keep a reference in the attacker realm's own state
+			p := base
+			p.id, p.needState, p.keepsRef = id+", then kept in "+[]string{"a variable", "a struct field", "an appended slice element", "a map value", "a slice element"}[n%len(c07KeepForms)], true, true
+			p.stmt = write + "\n\t" + strings.ReplaceAll(c07KeepForms[n%len(c07KeepForms)], "X", t.x)
+			out = append(out, p)
+			// same message: the program itself enters the victim's own mutator of that group
+			p = base
+			p.id, p.needState, p.needCur, p.bump = id+", then citadel.Bump in the same message", true, true, 1+t.grp
+			p.stmt = write + "\n\tcitadel.Bump(cross(cur), " + fmt.Sprint(t.grp) + ")"
+			out = append(out, p)
+			// a later message of the same tx keeps the reference / runs the victim's mutator
+			p = base
+			p.id, p.follow = id+", kept by a later message", fmt.Sprintf("keep:%d", t.keep)
+			p.stmt = write
+			out = append(out, p)
+			p = base
+			p.id, p.follow = id+", citadel.Bump by a later message", fmt.Sprintf("bump:%d", t.grp)
+			p.stmt = write
+			out = append(out, p)
+			n++
+		}
+	}
+	return out
+}
 
 // c07Body renders the program under a wrapper. SINK keeps a constructed value:
 // in the attacker realm's own persisted state when there is one.
@@ -674,6 +797,9 @@ func raiderSource(rd *raider) string {
 	sb.WriteString(c07Imports)
 	sb.WriteString(c07State)
 	sb.WriteString("\n// Kept reports which of the realm's own slots hold something.\nfunc Kept() string {\n\to := \"\"\n\tif stash != nil {\n\t\to += \"any \"\n\t}\n\tif len(stashSl) > 0 {\n\t\to += \"slice \"\n\t}\n\tif len(stashMap) > 0 {\n\t\to += \"map \"\n\t}\n\tif stashFn != nil {\n\t\to += \"func \"\n\t}\n\tif stashSt.R != nil {\n\t\to += \"struct \"\n\t}\n\treturn o\n}\n\n// Use reads the kept realm value back.\nfunc Use() string {\n\tif r, ok := stash.(realm); ok {\n\t\treturn \"realm:\" + r.Address().String() + \"|\" + r.PkgPath()\n\t}\n\treturn \"none\"\n}\n")
+	for j, k := range c07Keeps {
+		fmt.Fprintf(&sb, "\nfunc Keep%d(cur realm) {\n\tcalls++\n\t%s\n}\n", j, k)
+	}
 	for i, in := range rd.insts {
 		body := strings.ReplaceAll(in.body(), "SINK", sinkFor(true))
 		fmt.Fprintf(&sb, "\n// %d: %s\nfunc A%d(cur realm) {\n\tcalls++\n%s}\n", i, in.name(), i, body)
